@@ -277,6 +277,44 @@ class Sut(object):
                 else:
                     t.move_prefix_to_webentity(p, self.idmap[dst])
                 m.we[p] = dst
+            elif k in ("bad_delete", "bad_rmp", "bad_mvp"):
+                # requests the library must refuse with its own error, leaving the attachments as they are
+                gid = m.we.get(op["of"])
+                if gid is None:
+                    self.stats["ops_skipped"] += 1
+                    return out
+                before = dict(m.we)
+                try:
+                    if k == "bad_delete":
+                        if all(m.we.get(p) == gid for p in op["prefixes"]):
+                            self.stats["ops_skipped"] += 1
+                            return out
+                        t.delete_webentity(self.idmap[gid], list(op["prefixes"]))
+                    elif k == "bad_rmp":
+                        if m.we.get(op["prefix"]) in (None, gid):
+                            self.stats["ops_skipped"] += 1
+                            return out
+                        t.remove_prefix_from_webentity(op["prefix"], self.idmap[gid])
+                    else:
+                        if m.we.get(op["prefix"]) in (None, gid):
+                            self.stats["ops_skipped"] += 1
+                            return out
+                        t.move_prefix_to_webentity(op["prefix"], self.idmap[gid], self.idmap[gid])
+                    refused = False
+                except TraphException:
+                    refused = True
+                self.stats["refused_requests_checked"] += 1
+                if not refused:
+                    out.append(D(["C04"], "invalid-request-not-refused", op=k, detail_op={x: op[x] for x in op if x != "op"}))
+                    raise Aborted()
+                # the attachments must be unchanged: checked against the real index right away
+                got = {}
+                for node, lru in t.webentity_prefix_iter():
+                    got[lru] = self.tr(node.webentity())
+                if got != before:
+                    out.append(D(["C04"], "refused-request-changed-attachments", op=k,
+                                 diff=sorted(set(got.items()) ^ set(before.items()), key=repr)[:6]))
+                    raise Aborted()
             elif k == "rule":
                 self._apply_rule(op, out)
             elif k == "rmrule":
@@ -305,7 +343,7 @@ class Sut(object):
                 "add_page": ["C01"], "add_pages": ["C01"], "add_links": ["C01", "C03"],
                 "batch": ["C01", "C03"], "create": ["C04"], "delete": ["C04"], "addp": ["C04"],
                 "rmp": ["C04"], "mvp": ["C04"], "rule": ["C06"], "rmrule": ["C06"],
-                "reopen": ["C11"], "clear": ["C11"],
+                "reopen": ["C11"], "clear": ["C11"], "bad_delete": ["C04"], "bad_rmp": ["C04"], "bad_mvp": ["C04"],
             }[k]
             out.append(D(props, "exception-in-write", op=k, exc=type(e).__name__, msg=str(e)[:200],
                          tb=traceback.format_exc()[-600:], backend=self.cfg["backend"]))
